@@ -418,6 +418,15 @@ def run(R):
         P = V.structured_profile(R.rng, n, m) if R.rng.random() < 0.6 else V.rand_profile(R.rng, n, m)
         it = {"P": P, "m": m, "vals": consistent_vals(R.rng, P, m), "k": R.rng.randint(1, m), "kapp": (m + R.rng.randint(1, 2)) if t % 8 == 0 else None, "lam": R.rng.randint(1, m),
               "seed": R.rng.randrange(10 ** 6)}
+        if m >= 2 and t % 5 == 2:
+            # whole-number utilities around a million that differ by a few units: the elicitation rules' scores are then relatively close
+            # (1e-5 .. 1e-6) without being equal, so there is exactly one maximiser unless two sums coincide
+            big = []
+            for row in P:
+                xs = sorted((1000000.0 + R.rng.randint(0, 20) for _ in range(m)), reverse=True)
+                big.append([xs[row[j] - 1] for j in range(m)])
+            it["vals"] = big
+            R.count("elicitation_rules:utilities_around_1e6_few_units_apart")
         if m >= 2 and R.rng.random() < 0.3:
             # two leading alternatives whose total utility differs by a relative 1e-6 .. 1e-8: distinct scores, so exactly one maximiser
             rows = [[R.rng.choice([0.5, 1.0, 2.0, 3.0]) for _ in range(m)] for _ in range(n)]
